@@ -135,6 +135,39 @@ def check(pm: ProgramModel, ctx: Ctx) -> None:
               "the estimate never reads the cross-tree constraints (tree count = upper bound)",
               bad="the estimate consults the cross-tree constraints: the upper-bound argument no "
                   "longer applies")
+    # numeric cross-check on small abstract models, with and without constraints (all 2^n selections)
+    from ..exports import all_selections, model_names, model_valid
+    from ..model import rich_model
+    n_, o_ = mb.node, mb.op
+
+    def small(ctcs: list[Any]) -> AObj:
+        r = mb.feature("R")
+        a, b, c = mb.feature("A"), mb.feature("B"), mb.feature("C")
+        mb.relation(r, [a], 1, 1)
+        mb.relation(r, [b], 0, 1)
+        mb.relation(r, [c, mb.feature("D"), mb.feature("E")], 1, 2)
+        mb.relation(a, [mb.feature("A1"), mb.feature("A2")], 0, 1)
+        return mb.model(r, [mb.constraint(f"k{i}", t) for i, t in enumerate(ctcs)])
+    cases = {"no-constraints": [], "requires": [n_(o_("REQUIRES"), n_("B"), n_("C"))],
+             "excludes": [n_(o_("EXCLUDES"), n_("A1"), n_("D"))], "literal": [n_("B")],
+             "tautology": [n_(o_("OR"), n_("B"), n_(o_("NOT"), n_("B")))],
+             "several": [n_(o_("IMPLIES"), n_("C"), n_("A2")), n_(o_("NOT"), n_(o_("AND"), n_("D"), n_("E")))]}
+    for cname, ctcs in cases.items():
+        fm = small(ctcs)
+        it = Interp(pm)
+        try:
+            est = it.call(top, [fm])
+        except AbsRaise as exc:
+            est = ("raise", exc.what)
+        names = model_names(fm)
+        exact = sum(1 for s_ in all_selections(names) if model_valid(fm, s_))
+        tree_exact = sum(1 for s_ in all_selections(names) if model_valid(fm, s_, with_ctcs=False))
+        good = isinstance(est, int) and not isinstance(est, bool) and est >= exact and est == tree_exact
+        ctx.check(good, "C13-UPPER", f"model:{cname}", loc(top.unit.path, top.node),
+                  f"estimate {est} = tree count {tree_exact} >= exact count {exact} with constraints '{cname}'",
+                  bad=f"estimate {est!r} for a model with constraints '{cname}': the tree has {tree_exact} "
+                      f"configurations, {exact} of them satisfy the constraints (estimate must equal the former and "
+                      f"not be below the latter)")
     # operation wrapper: execute() stores exactly the count of the model it was given
     ex = pm.method(opc, "execute")
     gr = pm.method(opc, "get_result")
